@@ -273,6 +273,37 @@ struct Run {
     }
     void marathon(long count) {
         manyCount = count;
+        // (C) many requests queued at once: thread 0 holds the write lock, every other thread queues a write request;
+        // the lock then passes down the queue, one holder at a time, in arrival order
+        {
+            int n = (int) w.size();
+            w[0].cmd = C_LOCK_W; w[0].wantWrite = true; w[0].arrival = arrivals++;
+            toBoundary(0); if (!holding(0)) toBoundary(0);
+            if (!holding(0)) { complain("C02: the idle lock does not grant a write request"); return; }
+            w[0].holdsWrite = true;
+            for (int t = 1; t < n; ++t) {
+                w[t].cmd = C_LOCK_W; w[t].wantWrite = true; w[t].arrival = arrivals++;
+                toBoundary(t); if (!parked(t) && !holding(t)) toBoundary(t);
+                if (holding(t)) { complain("C01: a write request was granted while another writer holds the lock (" + std::to_string(t) + " requests queued)"); return; }
+            }
+            for (int t = 0; t < n; ++t) {
+                w[t].cmd = C_UNLOCK;
+                for (int g = 0; g < 8 && !atIdle(t); ++g) vs::step(w[t].vt);
+                if (t + 1 == n) break;
+                for (int g = 0; g < 4; ++g)
+                    for (int u = t + 1; u < n; ++u)
+                        if (parked(u) && w[u].vt->notified && vs::enabled(w[u].vt)) toBoundary(u);
+                int holders = 0;
+                for (int u = t + 1; u < n; ++u) if (holding(u)) ++holders;
+                if (holders > 1) { complain("C01: " + std::to_string(holders) + " writers hold the lock at the same time (" + std::to_string(n - 1) + " write requests were queued)"); return; }
+                if (!holding(t + 1)) {
+                    complain(std::string(holders ? "C03: with " : "C02: with ") + std::to_string(n - 1) + " write requests queued, the one at the head of the queue was not " +
+                             (holders ? "the one granted" : "granted after the holder released"));
+                    return;
+                }
+                w[t + 1].holdsWrite = true;
+            }
+        }
         // (A)
         w[0].cmd = C_MANY_READS; w[0].wantWrite = false; w[0].arrival = arrivals++;
         for (long g = 0; g < 4 * count + 100 && !holding(0); ++g) vs::step(w[0].vt);
